@@ -221,6 +221,10 @@ EXTRA = [
     "string(1 in (1 for string in [r.a.m]))",
     "uri(r.z in (0 for uri in [r.a.m]))", "path(1 in (0 for path in [r.a.m]), 2)", "varint(1 in (0 for varint in [r.a]))",
     "string(1 not in (v for string in [r.a.m] for v in [string]))", "net.ipaddress(1 in (0 for net in [r.a]))",
+    # ONE call site whose callee is allowed the first time it is evaluated and forbidden later (the judgement is per call,
+    # never per call site)
+    "all(f(r.a) for f in [str, r.a.m])", "any(f(r.z) == 1 for f in [lower, upper, r.a.m])", "all(f(1) for f in [repr, str, r.b])",
+    "all(f(r.a) for f in [string, r.a.m])", "any(f(v) for v in r.a for f in [str, v.m])",
     # dunder access spelled in every position
     "r.__dict__", "r.a.__class__", "lower(r.a).__class__", "'a'.__class__", "(r.a, 1).__len__", "r.a.__call__()",
     "Type.__class__", "net.__class__", "lower.__globals__", "str.__subclasses__()",
@@ -431,6 +435,42 @@ def explore(ctx, report=True):
                 ctx.violation("%s %s: a whitelisted helper read a double-underscore attribute of the record instead of refusing it" % (expr, outcome),
                               dict(kind="helper-dunder", expr=expr, outcome=outcome))
                 return None, None, True
+    # one Selector object over several records: a call site allowed for one record (the attribute IS an exposed function)
+    # must be judged again for the next record
+    class _Tool:
+        def __init__(self, render):
+            self.render = render
+
+    class _Holder:
+        def __init__(self, tool):
+            self.tool = tool
+            self._desc = CanaryDesc()
+    calls = []
+
+    def _forbidden(*a, **k):
+        calls.append(a)
+        return "x"
+    for expr in ["r.tool.render(1) == '1'", "any(r.tool.render(v) for v in [1, 2])", "lower(r.tool.render('A')) == 'a'"]:
+        sel_obj = Selector(expr)
+        ctx.count_case(("call-site-reuse", expr))
+        try:
+            sel_obj.match(_Holder(_Tool(str)))
+        except Exception:  # noqa
+            pass
+        outcome = None
+        try:
+            sel_obj.match(_Holder(_Tool(_forbidden)))
+            outcome = "evaluated"
+        except InvalidOperation:
+            outcome = "refused"
+        except Exception as e:  # noqa
+            outcome = type(e).__name__
+        if calls:
+            if report:
+                ctx.violation("one Selector(%r) matched against two records: the call site was allowed for the first record (the attribute "
+                              "is the exposed function str) and then invoked an arbitrary callable of the second record (%s)" % (expr, outcome),
+                              dict(kind="call-site-reuse", expr=expr, outcome=outcome))
+            return None, None, True
     # evaluation never modifies a real record
     for expr in ["upper(r.s) == 'X'", "any(c == 'x' for c in r.s)", "r.s in ['x']", "field_contains(r, ['s'], ['x'])",
                  "string('x') == r.s", "str(r) == ''", "repr(r.s) == 'x'", "len(names(r)) == 1" if False else "name(r) == 'probe/c09'"]:
